@@ -161,11 +161,10 @@ Print Assumptions C11_source_tie_skeleton.
     [impl_run], the channel / wait group / goroutine actions performed are exactly those the labels stand for
     ([events_run]), and the state reached is the one the model state stands for ([abs]: program point and variables
     of every goroutine, the closed flag of every channel, both wait group counters; after a panic: a panicked program).
-    MISSING: the converse (every run of the skeleton semantics is, up to the order of independent steps and the
-    data the skeleton does not follow, a run of the model); it needs a commutation argument for the steps the model
-    takes atomically (LMainStart, LRouterSpawn) and is not proved.  So this theorem shows that the model does nothing
-    the code cannot do; that the code does nothing the model cannot do rests on level 1 and on the recorded
-    histories of harness_pipe. *)
+    The converse (every run of the skeleton semantics is, up to the data the skeleton does not follow, a run of the
+    model) is proved further down: [C11_source_tie_skeleton_runs_are_model_runs] and the theorems around it.  So this
+    theorem shows that the model does nothing the code cannot do, and those that the code (as far as the skeleton
+    semantics reads it) does nothing the model cannot do. *)
 Theorem C11_source_tie_model_runs_are_skeleton_runs_partial : forall cfg ls s,
   NoDup (c_targets cfg) -> exec cfg (init cfg) ls s ->
   exists g, grun (program gen_pipe_skeleton) (ginit (program gen_pipe_skeleton) (c_targets cfg))
@@ -232,3 +231,190 @@ Example C11_ex_every_comm_statement_runs :
      = ["panic fmt.Errorf(""no new polygon for level %v"", tmID)"%string]
   /\ List.length (keys_of_funcs Pg) = 41%nat.
 Proof. vm_compute. repeat split; reflexivity. Qed.
+
+(** ** Level 2, the CONVERSE: every run of the skeleton semantics is a run of the model (agent c11conv)
+
+    Pipe/Converse.v defines the refinement relation [skel_rel cfg g s] between a state [g] of the skeleton semantics of
+    the regenerated skeleton and a model state [s]: the goroutines of [g] are, in the order they were started (ANY
+    order: the Router may start Writers before Main has started the Snapper), exactly the call stacks of Main,
+    Router, Snapper, Reader and one Writer per channel the Router has made, each at one of the 131 program points
+    listed in Pipe/ConversePc.v / ConversePcSn.v (or, inside processMultiPolygon / polygonsToMulti, a stack of pure
+    frames), with the environments the semantics computes; the closed flags of the channels and both wait group
+    counters are those of [s]; the Router's map of channels is the one of the order [done] it visited the targets in.
+    The model's atomic label LMainStart is taken at Main's first go statement, LRouterSpawn when the Router leaves
+    its spawn loop; before / in between the model waits (the intermediate states are related to the state before /
+    after, no reordering of steps is needed); every other label is taken at the step that performs its communication.
+
+    DATA: the skeleton semantics does not follow data and leaves the corresponding choices open.  A step of the
+    skeleton semantics is matched when its choice is the one the coupled model state dictates ([data_ok], 5 program
+    points: is there another feature in the source; which clause of the type switch; which key a send loop visits
+    next / whether it is finished; whether line 39 panics for that key; the tile matrix id the Router reads from the
+    feature it received).  Every other choice — all map iteration orders, `if len(..) > 0`, one polygon or several,
+    the log branch, every loop of processMultiPolygon and polygonsToMulti — and the WHOLE SCHEDULE (which goroutine
+    moves next, which rendezvous happens) is universally quantified.  No well-formedness of the features is assumed
+    for the step and run theorems: the model's panics are matched too.
+
+    [crun Pg cfg g s acts evs g' s'] (Pipe/Converse.v) is a run [acts] of the skeleton semantics from [g] to [g']
+    with events [evs], coupled with model states: each step's data choice follows the current model state, which
+    follows by at most one model step to a state the new skeleton state stands in for.
+      - [C11_source_tie_skeleton_step_is_model_step]: the step lemma (any related states, any enabled action);
+      - [C11_source_tie_no_schedule_left_out]: a coupled run can be extended by EVERY enabled action whose data choice
+        follows the model state — so the coupled runs are all the data-consistent runs, not a selection of schedules;
+      - [C11_source_tie_skeleton_runs_are_model_runs]: a coupled run from ProcessFeatures(source, targets, f) is a run
+        of the skeleton semantics, matched by an execution of the model that is not longer, ending in related states.
+    NOT STATED: the correspondence of the event lists ([evs] against [label_events]).  Termination: the number of
+    steps that change the model state is bounded by the model's measure ([C11_skeleton_model_steps_bounded]); the
+    length of the whole run is bounded relative to the steps inside processMultiPolygon / polygonsToMulti
+    ([C11_skeleton_terminates_partial], at the end of this file). *)
+From Texel Require Import Pipe.Converse Pipe.ProofsGenConverse.
+
+Theorem C11_source_tie_skeleton_init : forall cfg,
+  skel_rel cfg (ginit (program gen_pipe_skeleton) (c_targets cfg)) (init cfg).
+Proof. exact gen_rel_init. Qed.
+Print Assumptions C11_source_tie_skeleton_init.
+
+Theorem C11_source_tie_skeleton_step_is_model_step : forall cfg g s a g' ev, NoDup (c_targets cfg) ->
+  skel_rel cfg g s -> gstep (program gen_pipe_skeleton) g a = Some (g', ev) -> data_ok s g a ->
+  exists s', (s' = s \/ exists l, step cfg s l = Some s') /\ skel_rel cfg g' s'.
+Proof. exact gen_conv_step. Qed.
+Print Assumptions C11_source_tie_skeleton_step_is_model_step.
+
+Theorem C11_source_tie_no_schedule_left_out : forall cfg acts evs g1 s1 a g2 ev, NoDup (c_targets cfg) ->
+  let Pg := program gen_pipe_skeleton in
+  crun Pg cfg (ginit Pg (c_targets cfg)) (init cfg) acts evs g1 s1 -> gstep Pg g1 a = Some (g2, ev) -> data_ok s1 g1 a ->
+  exists s2, crun Pg cfg (ginit Pg (c_targets cfg)) (init cfg) (acts ++ [a]) (evs ++ ev) g2 s2.
+Proof. exact gen_crun_extend. Qed.
+Print Assumptions C11_source_tie_no_schedule_left_out.
+
+Theorem C11_source_tie_skeleton_runs_are_model_runs : forall cfg acts evs g s,
+  let Pg := program gen_pipe_skeleton in
+  crun Pg cfg (ginit Pg (c_targets cfg)) (init cfg) acts evs g s ->
+  grun Pg (ginit Pg (c_targets cfg)) acts = Some (g, evs)
+  /\ (exists ls, exec cfg (init cfg) ls s /\ (List.length ls <= List.length acts)%nat)
+  /\ skel_rel cfg g s.
+Proof. exact gen_skeleton_run_is_model_run. Qed.
+Print Assumptions C11_source_tie_skeleton_runs_are_model_runs.
+
+(** the model state coupled to a run of the skeleton semantics is REACHABLE in the model, and the state of the skeleton
+    semantics stands in for it: so every theorem above about reachable model states ([C10_invariant], [C10_received_prefix],
+    [C11_return_after_finish], [C11_quiescent_after_return], ...) holds of the model state coupled to ANY data-consistent
+    run of the regenerated skeleton, whatever the schedule *)
+Theorem C11_skeleton_coupled_state_reachable : forall cfg acts evs g s,
+  let Pg := program gen_pipe_skeleton in
+  crun Pg cfg (ginit Pg (c_targets cfg)) (init cfg) acts evs g s -> reachable cfg s /\ skel_rel cfg g s.
+Proof. exact gen_crun_reachable. Qed.
+Print Assumptions C11_skeleton_coupled_state_reachable.
+
+(** related states: when every goroutine of the skeleton semantics has returned, the model state is final *)
+Theorem C11_skeleton_all_returned_is_final : forall cfg g s, skel_rel cfg g s -> gfinal g = true -> final s = true.
+Proof. exact gen_gfinal_final. Qed.
+Print Assumptions C11_skeleton_all_returned_is_final.
+
+(** ** The model's theorems, transferred to the runs of the skeleton semantics (well-formed configurations) *)
+
+(** no panic: no send on a closed channel, no close of a closed channel, no negative wait group counter, no
+    "should never happen" panic in any data-consistent run of the regenerated skeleton, whatever the schedule *)
+Theorem C11_skeleton_no_panic : forall cfg acts evs g s, wf_config cfg ->
+  let Pg := program gen_pipe_skeleton in
+  crun Pg cfg (ginit Pg (c_targets cfg)) (init cfg) acts evs g s -> g_panic g = None.
+Proof. exact gen_skeleton_no_panic. Qed.
+Print Assumptions C11_skeleton_no_panic.
+
+(** no deadlock: as long as some goroutine has not returned, some action of the skeleton semantics is enabled (a local
+    step with a data choice the model state allows, or a rendezvous) — whatever the schedule was so far *)
+Theorem C11_skeleton_no_deadlock : forall cfg acts evs g s, wf_config cfg ->
+  let Pg := program gen_pipe_skeleton in
+  crun Pg cfg (ginit Pg (c_targets cfg)) (init cfg) acts evs g s -> gfinal g = false ->
+  exists a g1 ev, gstep Pg g a = Some (g1, ev) /\ data_ok s g a.
+Proof. exact gen_skeleton_no_deadlock. Qed.
+Print Assumptions C11_skeleton_no_deadlock.
+
+(** no goroutine is left behind: a run that cannot be continued has ended with EVERY goroutine returned — Main, Router,
+    Snapper, Reader and every Writer — and the model in its final state *)
+Theorem C11_skeleton_no_goroutine_left : forall cfg acts evs g s, wf_config cfg ->
+  let Pg := program gen_pipe_skeleton in
+  crun Pg cfg (ginit Pg (c_targets cfg)) (init cfg) acts evs g s ->
+  (forall a g1 ev, gstep Pg g a = Some (g1, ev) -> ~ data_ok s g a) ->
+  gfinal g = true /\ s = final_state cfg.
+Proof. exact gen_skeleton_stuck_is_final. Qed.
+Print Assumptions C11_skeleton_no_goroutine_left.
+
+(** at most [measure] steps of a run of the skeleton semantics change the model state (all others are local
+    statements, loop and call bookkeeping): the model execution matched to a coupled run obeys the model's bound *)
+Theorem C11_skeleton_model_steps_bounded : forall cfg acts evs g s,
+  let Pg := program gen_pipe_skeleton in
+  crun Pg cfg (ginit Pg (c_targets cfg)) (init cfg) acts evs g s ->
+  exists ls, exec cfg (init cfg) ls s /\ (List.length ls <= measure cfg (init cfg))%nat.
+Proof. exact gen_model_steps_bounded. Qed.
+Print Assumptions C11_skeleton_model_steps_bounded.
+
+(** coupled runs exist, of every length up to the end (the hypotheses above are satisfiable along every run) *)
+Theorem C11_skeleton_coupled_runs_exist : forall cfg n, wf_config cfg ->
+  let Pg := program gen_pipe_skeleton in
+  exists acts evs g s, crun Pg cfg (ginit Pg (c_targets cfg)) (init cfg) acts evs g s
+                       /\ (List.length acts = n \/ gfinal g = true).
+Proof. exact gen_coupled_runs_exist. Qed.
+Print Assumptions C11_skeleton_coupled_runs_exist.
+
+Example C11_ex_coupled_run : exists acts evs g s,
+  let Pg := program gen_pipe_skeleton in
+  crun Pg ex_cfg (ginit Pg (c_targets ex_cfg)) (init ex_cfg) acts evs g s /\ (List.length acts = 500%nat \/ gfinal g = true).
+Proof. exact (gen_coupled_runs_exist ex_cfg 500 C11_ex_wf). Qed.
+
+(** the data discipline is not vacuous: at the Reader's loop head with features left, ending the loop is refused and
+    going on is allowed; at any other statement every choice is allowed *)
+Example C11_ex_data_ok :
+  let th := SkeletonSim.rd_th (RdRun []) in
+  let s1 := set_rd (init ex_cfg) (RdRun [MkFeature 1%N KOther]) in
+  ~ choice_ok s1 th (CIter None) /\ choice_ok s1 th (CIter (Some 0)) /\ choice_ok (set_rd s1 (RdRun [])) th (CIter None)
+  /\ choice_ok s1 (SkeletonSim.rd_th RdClosed) (CBool true).
+Proof. cbv zeta. unfold choice_ok. cbn. repeat split; try discriminate; auto. Qed.
+
+(** ** Termination of the runs of the skeleton semantics — PARTIAL
+
+    [rrun Pg cfg R C W s acts k R2 C2 W2 s2] (Pipe/ConverseRank.v) is a coupled run with the goroutines written out as
+    roles at program points ([gst ts R C W] is the state of the skeleton semantics whose goroutines are [map th_of R]);
+    [k] counts the steps the Snapper takes INSIDE a call of processMultiPolygon or polygonsToMulti.  Every other step
+    either is a step of the model (the model's [measure] drops) or lowers the sum of the ranks of the goroutines
+    ([rank_*], Pipe/ConverseRank.v: the number of silent steps a goroutine can still take before its next step of the
+    model, before it blocks or ends; the spawn loops are counted by the entries still to visit).
+      - [C11_skeleton_ranked_runs_are_coupled_runs]: forgetting the roles gives a coupled run [crun];
+      - [C11_skeleton_ranked_no_schedule_left_out]: a ranked run from the start can be extended by EVERY enabled action
+        whose data choice follows the model state (well-formed configuration: no step panics);
+      - [C11_skeleton_terminates_partial]: length <= k + (8 + 3n) + (33 + 17n) * measure cfg (init cfg), n = number of
+        targets: no schedule makes the skeleton run longer, there is no livelock of local steps, and an infinite run
+        would have to stay for ever inside the loops of processMultiPolygon / polygonsToMulti.
+    MISSING (hence _partial): a bound on [k].  The loops of processMultiPolygon and polygonsToMulti run over data the
+    skeleton does not follow (a slice of polygons, a map of results, `i < l`); in the skeleton semantics their
+    iteration count is a free choice, so no bound holds there; in the Go code each runs as often as its finite
+    slice / map is long.  Also not proved: that the ranked coupling is the only coupling (the bound is stated for
+    the coupling the step lemma constructs, which exists for every data-consistent run). *)
+From Texel Require Import Pipe.ConversePc Pipe.ConverseRank.
+
+Theorem C11_skeleton_ranked_runs_are_coupled_runs : forall cfg acts k R2 C2 W2 s2,
+  let Pg := program gen_pipe_skeleton in
+  rrun Pg cfg [RoMain M0] [] [] (init cfg) acts k R2 C2 W2 s2 ->
+  exists evs, crun Pg cfg (ginit Pg (c_targets cfg)) (init cfg) acts evs (gst (c_targets cfg) R2 C2 W2) s2.
+Proof. exact gen_rrun_is_crun. Qed.
+Print Assumptions C11_skeleton_ranked_runs_are_coupled_runs.
+
+Theorem C11_skeleton_ranked_no_schedule_left_out : forall cfg acts k R2 C2 W2 s2 a g3 ev, wf_config cfg ->
+  let Pg := program gen_pipe_skeleton in
+  rrun Pg cfg [RoMain M0] [] [] (init cfg) acts k R2 C2 W2 s2 ->
+  gstep Pg (gst (c_targets cfg) R2 C2 W2) a = Some (g3, ev) -> data_ok s2 (gst (c_targets cfg) R2 C2 W2) a ->
+  exists R3 C3 W3 s3 pure, g3 = gst (c_targets cfg) R3 C3 W3
+                           /\ rrun Pg cfg [RoMain M0] [] [] (init cfg) (acts ++ [a]) (k + Nat.b2n pure) R3 C3 W3 s3.
+Proof. exact gen_rrun_extend. Qed.
+Print Assumptions C11_skeleton_ranked_no_schedule_left_out.
+
+Theorem C11_skeleton_terminates_partial : forall cfg acts k R2 C2 W2 s2,
+  let Pg := program gen_pipe_skeleton in
+  rrun Pg cfg [RoMain M0] [] [] (init cfg) acts k R2 C2 W2 s2 ->
+  (List.length acts <= k + (8 + 3 * List.length (c_targets cfg))
+                       + (33 + 17 * List.length (c_targets cfg)) * measure cfg (init cfg))%nat.
+Proof. exact gen_rrun_bound. Qed.
+Print Assumptions C11_skeleton_terminates_partial.
+
+(** the start of a ranked run is the call ProcessFeatures(source, targets, f) *)
+Example C11_ex_ranked_start : forall ts, gst ts [RoMain M0] [] [] = ginit (program gen_pipe_skeleton) ts.
+Proof. reflexivity. Qed.
